@@ -45,6 +45,9 @@ func assigned(evs []*rev, out map[string]bool, declared map[string]bool) {
 	for _, e := range evs {
 		switch e.k {
 		case "SetLen", "Havoc", "Reslice":
+			if e.aux {
+				break
+			}
 			if e.decl {
 				declared[e.x] = true
 			} else {
